@@ -89,3 +89,27 @@ Example C05_nonvacuous :
   option_map (fun g => map lc_checksum (bg_calls g)) (build (c05_world [(1, 7)]) c05_opts (empty_bgraph KAll) [1] [])
     = Some [Some 7].
 Proof. split; vm_compute; reflexivity. Qed.
+
+(* ---------- stage B2: files of registry packages, Model/Jsr.v ----------
+   Every loader call for a file of a registry package - the cache-only probe, the
+   deferred content load, the plain load of a file without embedded module info,
+   the load of an https URL that points into the registry (after its version
+   manifest was fetched), statically or dynamically imported, before or after a
+   restart - presents the checksum the version manifest gives for that file (the
+   lockfile's remote checksum for the URL never replaces it), and no such call
+   is made unless the manifest was loaded and has a usable checksum. *)
+From DG Require Model.Jsr Proofs.JsrProofs.
+
+Theorem C05_registry_presents_manifest_checksum : forall W o roots g,
+  Jsr.wf_jworld W = true -> Jsr.jbuild W o roots = Some g ->
+  forall c p v path, In c (Jsr.jg_calls g) -> Jsr.cls_of W (Jsr.jc_spec c) = Jsr.CFile p v path ->
+  exists vi k, Jsr.v_meta (Jsr.ver_of W (p, v)) = Jsr.VOk vi /\ Jsr.get_checksum W vi path = Some k /\
+               Jsr.jc_checksum c = Some k.
+Proof.
+  intros W o roots g Hwf Hb c p v path Hin Hc.
+  pose proof (proj1 (proj2 (JsrProofs.jbuild_jinv W Hwf o roots g Hb))) as Hall.
+  rewrite Forall_forall in Hall. specialize (Hall c Hin). unfold JsrProofs.CallOK in Hall. rewrite Hc in Hall.
+  destruct Hall as [k [[p' [v' [path' [vi [Hc' [Hm Hg]]]]]] Hk]]. rewrite Hc in Hc'. inversion Hc'; subst.
+  exists vi, k. repeat split; assumption.
+Qed.
+Print Assumptions C05_registry_presents_manifest_checksum.
